@@ -44,7 +44,8 @@ def run(ctx):
     for it in range(12 if ctx.quick else 1200):
         k = rng.choice([2, 2, 3, 3, 4])
         if it % 3 == 2:
-            vss, unit = impl.scaled_family(ctx, min(k, 3))
+            k = min(k, 3)
+            vss, unit = impl.scaled_family(ctx, k)
         else:
             vss = impl.leaf_family(ctx, k)
         e = impl.rand_expr(rng, range(k))
